@@ -27,12 +27,17 @@ func appendEfaceSlice(buf []byte, l []interface{}, marshal func(interface{}) ([]
 }
 
 func decodeLength(buf []byte, n *int) ([]byte, error) {
-	k, len := binary.Uvarint(buf)
-	if len <= 0 {
+	k, used := binary.Uvarint(buf)
+	if used <= 0 {
+		return nil, errors.New("bad length")
+	}
+	buf = buf[used:]
+	if k > uint64(len(buf)) {
+		// every counted element or byte occupies at least one byte of buf
 		return nil, errors.New("bad length")
 	}
 	*n = int(k)
-	return buf[len:], nil
+	return buf, nil
 }
 
 func decodeBytes(buf []byte, body *[]byte) ([]byte, error) {
